@@ -68,12 +68,17 @@ def gen_cases(rng, tier):
         if kind == 'set':
             for r in rxns:
                 r['basis'] = rxns[0]['basis']
+            if rng.random() < 0.25:      # every member created with a Python int conversion (numpy infers an int array)
+                for r in rxns:
+                    r['X'] = rng.choice([0, 1, 1])
             ops = []
             for _ in range(rng.randint(2, 7)):
-                o = rng.choice(['item_set', 'set_elem', 'set_all', 'set_all', 'sub_all', 'sub_elem', 'item_mul', 'item_div'])
+                o = rng.choice(['item_set', 'set_elem', 'set_all', 'set_all', 'sub_all', 'sub_elem', 'item_mul', 'item_div', 'reduce'])
                 lo = rng.randrange(nr); ln = rng.randint(1, nr - lo)
                 if o in ('item_set', 'set_elem'):
                     ops.append([o, rng.randrange(nr), float(rng.choice(XS))])
+                elif o == 'reduce':
+                    ops.append([o])
                 elif o == 'item_mul':
                     ops.append([o, rng.randrange(nr), float(rng.choice(KS_MUL))])
                 elif o == 'item_div':
@@ -224,6 +229,10 @@ def set_apply(pr, handles, op):
     name = op[0]
     if name == 'item_set':
         handles[1 + op[1]].X = op[2]
+    elif name == 'reduce':
+        red = pr.reduce()
+        assert red is not pr
+        return red
     elif name == 'item_mul':
         it = handles[1 + op[1]]; it *= op[2]
     elif name == 'item_div':
@@ -342,6 +351,7 @@ def coq_case(case, out):
             nm = op[0]
             if nm == 'item_set': sops.append(f'(SItemSet {cnat(op[1])} {q(op[2])})')
             elif nm == 'set_elem': sops.append(f'(SSetElem {cnat(op[1])} {q(op[2])})')
+            elif nm == 'reduce': sops.append('SReduce')
             elif nm == 'item_mul': sops.append(f'(SItemMul {cnat(op[1])} {q(op[2])})')
             elif nm == 'item_div': sops.append(f'(SItemDiv {cnat(op[1])} {q(op[2])})')
             elif nm == 'set_all': sops.append(f'(SSetAll {vec_of(op[1], 0)})')
@@ -412,6 +422,18 @@ def oracle(case):
             except Exception:
                 continue
             cur = [float(x) for x in pr.X]
+            if op[0] == 'reduce' and all(float(r.X) > 0 for r in objs) and all(x > 0 for x in cur):
+                red = pr.reduce()
+                if not close(set_conv(red, case), set_conv(pr, case)):
+                    return 'set: reduce() does not act like the set it combines'
+            if op[0] == 'reduce':
+                if cur != before: return f'set: reduce() changed the conversions of the set it was called on ({before} -> {cur})'
+            if op[0] in ('item_set', 'set_elem') and abs(cur[op[1]] - op[2]) > 1e-12:
+                return f'set: conversion {op[2]} assigned through {op[0]} reads back as {cur[op[1]]}'
+            if op[0] == 'set_all' and len(cur) == (len(op[1]) if isinstance(op[1], list) else len(cur)):
+                want_all = op[1] if isinstance(op[1], list) else [op[1]] * len(cur)
+                if len(want_all) == len(cur) and any(abs(a - b) > 1e-12 for a, b in zip(cur, want_all)):
+                    return f'set: conversions {want_all} assigned to the set read back as {cur}'
             if op[0] in ('item_mul', 'item_div'):
                 k = op[2] if op[0] == 'item_mul' else 1. / op[2]
                 for j, (b, c) in enumerate(zip(before, cur)):
